@@ -492,9 +492,11 @@ pub fn apply_b<'a, T: Cellish>(op: &Op, slots: &mut Vec<BS<'a, T>>, bump: &'a Bu
             }
         },
         "slice_to_vec" => match take!(slots, s) {
-            BS::Slice(b, Some(cap)) => {
-                // the crate offers no safe Box<[T]> -> Vec; this is the documented raw-parts round trip
+            BS::Slice(b, _) => {
+                // the crate offers no safe Box<[T]> -> Vec; this is the raw-parts round trip.  The capacity given is the
+                // length: whatever block the slice sits in holds at least that (robust against a shrinking into_boxed_slice)
                 let len = b.len();
+                let cap = len;
                 let p = cr(|| BBox::into_raw(b)) as *mut T;
                 slots[s] = BS::Vec(cr(|| unsafe { BVec::from_raw_parts_in(p, len, cap, bump) }));
                 out("ok")
